@@ -8,9 +8,11 @@ namespace Tu.C09
 open Tu
 set_option linter.unusedVariables false
 
+/-! ### any upstream (it need not be fused) -/
+
 /-- while the consumer is there, workers pull at most `2 * W` items ahead of what was consumed -/
-theorem pipe_lookahead (W n : Nat) (hW : 1 ≤ W) (s : PState) (h : PReach W n s) (hd : s.dropped = false) :
-    s.next ≤ s.recvd.length + 2 * W := by
+theorem pipe_lookahead_gen (W : Nat) (src : Nat → Bool) (hW : 1 ≤ W) (s : PState) (h : PReach W src s)
+    (hd : s.dropped = false) : s.next ≤ s.recvd.length + 2 * W := by
   have hi := inv_reach h
   have hcount := hi.count
   have hbusy := sum_range_le (fun u => (s.pc u).busy) 1 (fun u => by cases s.pc u <;> simp [PC.busy]) W
@@ -24,8 +26,8 @@ theorem pipe_lookahead (W n : Nat) (hW : 1 ≤ W) (s : PState) (h : PReach W n s
 
 /-- after the consumer dropped the iterator no worker takes more than one further item:
 `next + takesLeft` never grows, and `takesLeft ≤ W` -/
-theorem pipe_drop_stops (W n : Nat) (hW : 1 ≤ W) (s s' : PState) (a : PAction) (h : PReach W n s)
-    (hd : s.dropped = true) (hs : pstep s a = some s') :
+theorem pipe_drop_stops_gen (W : Nat) (src : Nat → Bool) (hW : 1 ≤ W) (s s' : PState) (a : PAction)
+    (h : PReach W src s) (hd : s.dropped = true) (hs : pstep s a = some s') :
     s'.dropped = true ∧ s'.next + takesLeft s' ≤ s.next + takesLeft s ∧ takesLeft s ≤ W := by
   obtain ⟨h1, h2⟩ := drop_step hd hs
   have := takesLeft_le s
@@ -33,11 +35,13 @@ theorem pipe_drop_stops (W n : Nat) (hW : 1 ≤ W) (s s' : PState) (a : PAction)
   exact ⟨h1, h2, this⟩
 
 /-- after `drop`, while some worker has not exited, a measure-decreasing step of a *worker* is enabled
-(the consumer's actions are all disabled after `drop`) -/
-theorem pipe_drop_exits_worker (W n : Nat) (hW : 1 ≤ W) (s : PState) (h : PReach W n s)
+(the consumer's actions are all disabled after `drop`); the measure is the one of C05, for an upstream that
+is exhausted from its `N`-th call on -/
+theorem pipe_drop_exits_worker_gen (W : Nat) (src : Nat → Bool) (hW : 1 ≤ W) (N : Nat)
+    (hN : ∀ k, N ≤ k → src k = false) (s : PState) (h : PReach W src s)
     (hd : s.dropped = true) (hne : allExited s = false) :
     ∃ a s', a ≠ PAction.drop ∧ a ≠ PAction.recv ∧ a ≠ PAction.close ∧
-      pstep s a = some s' ∧ pmeasure s' < pmeasure s := by
+      pstep s a = some s' ∧ pmeasure N s' < pmeasure N s := by
   have hi := inv_reach h
   have : ∃ w, w < W ∧ s.pc w ≠ .exited := by
     apply Classical.byContradiction
@@ -50,14 +54,43 @@ theorem pipe_drop_exits_worker (W n : Nat) (hW : 1 ≤ W) (s : PState) (h : PRea
       exact hcon ⟨w, hw, hne⟩
     rw [this] at hne; cases hne
   obtain ⟨w, hw, hpc⟩ := this
-  exact worker_progress hi hw hpc (Or.inl hd)
+  exact worker_progress hi (by rw [hi.hsrc]; exact hN) hw hpc (Or.inl hd)
 
 /-- … and every worker eventually exits: while some worker has not exited, a worker step that
 decreases the measure is enabled (nothing can block any more: sends fail immediately) -/
-theorem pipe_drop_exits (W n : Nat) (hW : 1 ≤ W) (s : PState) (h : PReach W n s) (hd : s.dropped = true)
-    (hne : allExited s = false) : ∃ a s', pstep s a = some s' ∧ pmeasure s' < pmeasure s := by
-  obtain ⟨a, s', _, _, _, hs, hm⟩ := pipe_drop_exits_worker W n hW s h hd hne
+theorem pipe_drop_exits_gen (W : Nat) (src : Nat → Bool) (hW : 1 ≤ W) (N : Nat)
+    (hN : ∀ k, N ≤ k → src k = false) (s : PState) (h : PReach W src s) (hd : s.dropped = true)
+    (hne : allExited s = false) : ∃ a s', pstep s a = some s' ∧ pmeasure N s' < pmeasure N s := by
+  obtain ⟨a, s', _, _, _, hs, hm⟩ := pipe_drop_exits_worker_gen W src hW N hN s h hd hne
   exact ⟨a, s', hs, hm⟩
+
+/-! ### fused upstream of `n` items -/
+
+/-- while the consumer is there, workers pull at most `2 * W` items ahead of what was consumed -/
+theorem pipe_lookahead (W n : Nat) (hW : 1 ≤ W) (s : PState) (h : PReach W (fused n) s) (hd : s.dropped = false) :
+    s.next ≤ s.recvd.length + 2 * W :=
+  pipe_lookahead_gen W (fused n) hW s h hd
+
+/-- after the consumer dropped the iterator no worker takes more than one further item:
+`next + takesLeft` never grows, and `takesLeft ≤ W` -/
+theorem pipe_drop_stops (W n : Nat) (hW : 1 ≤ W) (s s' : PState) (a : PAction) (h : PReach W (fused n) s)
+    (hd : s.dropped = true) (hs : pstep s a = some s') :
+    s'.dropped = true ∧ s'.next + takesLeft s' ≤ s.next + takesLeft s ∧ takesLeft s ≤ W :=
+  pipe_drop_stops_gen W (fused n) hW s s' a h hd hs
+
+/-- after `drop`, while some worker has not exited, a measure-decreasing step of a *worker* is enabled
+(the consumer's actions are all disabled after `drop`) -/
+theorem pipe_drop_exits_worker (W n : Nat) (hW : 1 ≤ W) (s : PState) (h : PReach W (fused n) s)
+    (hd : s.dropped = true) (hne : allExited s = false) :
+    ∃ a s', a ≠ PAction.drop ∧ a ≠ PAction.recv ∧ a ≠ PAction.close ∧
+      pstep s a = some s' ∧ pmeasure n s' < pmeasure n s :=
+  pipe_drop_exits_worker_gen W (fused n) hW n (fun _ hk => fused_false hk) s h hd hne
+
+/-- … and every worker eventually exits: while some worker has not exited, a worker step that
+decreases the measure is enabled (nothing can block any more: sends fail immediately) -/
+theorem pipe_drop_exits (W n : Nat) (hW : 1 ≤ W) (s : PState) (h : PReach W (fused n) s) (hd : s.dropped = true)
+    (hne : allExited s = false) : ∃ a s', pstep s a = some s' ∧ pmeasure n s' < pmeasure n s :=
+  pipe_drop_exits_gen W (fused n) hW n (fun _ hk => fused_false hk) s h hd hne
 
 /-! ### `Buffered` -/
 
@@ -143,10 +176,17 @@ example : (brun (BufState.init 1 5) [.pull, .send, .pull, .drop, .send]).map
     (fun s => (s.dropped, s.pulled, decide (s.pc = .exited))) = some (true, 2, true) := by decide
 
 /-- drop while worker 0 is about to send and worker 1 is spinning: both exit, nothing further is taken -/
-example : (prun (PState.init 2 5)
+example : (prun (PState.init 2 (fused 5))
     [.take 0, .take 1, .compute 0, .compute 1, .spin 0, .drop, .send 0, .spin 1, .advance 0, .spin 1, .send 1,
      .advance 1]).map
     (fun s => (s.dropped, s.next, allExited s)) = some (true, 2, true) := by decide
+
+/-- the same drop over an upstream that is not fused (`Some, Some, None, Some, …`): both workers exit through
+their failed sends, the `None` and what follows it are never asked for -/
+example : (prun (PState.init 2 (srcOf [true, true, false, true, true]))
+    [.take 0, .take 1, .compute 0, .compute 1, .spin 0, .drop, .send 0, .spin 1, .advance 0, .spin 1, .send 1,
+     .advance 1]).map
+    (fun s => (s.dropped, s.next, s.pulls, allExited s)) = some (true, 2, 2, true) := by decide
 
 /-! ### why the panic hook is needed: the negative control
 
@@ -168,14 +208,14 @@ def actions2 : List PAction :=
 
 /-- the wedged state: worker 0 took item 0 and vanished, worker 1 computed item 1 and spins -/
 def wedged : Option PState :=
-  (prun (PState.init 2 3) [.take 0, .take 1, .compute 1]).bind (fun s => vanish s 0)
+  (prun (PState.init 2 (fused 3)) [.take 0, .take 1, .compute 1]).bind (fun s => vanish s 0)
 
 theorem no_hook_wedges :
     (wedged.map (fun s => (s.closed, s.recvd, s.turn, decide (s.pc 1 = .computed 1)))) = some (false, [], 0, true) ∧
     (wedged.map (fun s => actions2.all (fun a =>
         match pstep s a with
         | none => true                                  -- not enabled
-        | some s' => pmeasure s' == pmeasure s && s'.recvd == s.recvd && s'.closed == s.closed))) = some true := by
+        | some s' => pmeasure 3 s' == pmeasure 3 s && s'.recvd == s.recvd && s'.closed == s.closed))) = some true := by
   decide
 
 end Tu.C09
